@@ -5,7 +5,7 @@ ENTRY = dict(
     design_ref="DESIGN.md section 6 / C05",
     technique="Lean 4 round-trip theorems decode(encode m ++ rest) = (valOf m, rest) for every structure and the whole sensor chain "
               "(wire layout written once as encoders = the specification) + correspondence: Lean-encoded messages decoded by the real frames, plus a malformed stream",
-    prop_modules=["C05Sensors", "C05Params"],
+    prop_modules=["C05Sensors", "C05Params", "C05Device", "C05Short"],
     uses_tables=True,
     level_text=(
         "Proof: for ALL well-formed abstract messages and ALL trailing bytes the decoder model run on the Lean-defined encoding returns exactly the encoded "
@@ -27,6 +27,10 @@ ENTRY = dict(
         "names / constants / tables": "table (translator + decide lemmas)",
         "decoding is pure and repeatable": "definitional in the model + correspondence (decode twice, fresh frame, payload bytes unchanged)",
         "malformed payloads": "correspondence (value or error class)",
+        "truncated sensor-data payloads: exactly which strict prefixes are errors": "theorem (decode_total, short_payload_errors, short_payload_tail_ok) + correspondence (every truncation of sampled messages judged by the theorem's bound)",
+        "device level: sensors -> one event per name, mixer / thermostat sub-devices, thermostat count plumbed to the thermostat-parameters decoder": "theorem (thermostats_available_after, thermostat_count_plumbed, thermostat_count_zero) on the device model + correspondence (frame sequences into ONE real EcoMAX, device.data and sub-device data compared after every frame)",
+        "device level: schema response then regulator data, a later schema replaces an earlier one, an empty schema keeps it": "theorem (schema_then_data, later_schema_replaces, empty_schema_keeps) + correspondence",
+        "frame versions: same layout in sensor data and regulator data, last duplicate wins, unknown codes kept; the dict C15 consumes": "theorem (frame_versions_same_layout, frame_versions_last_wins, sensor_frame_versions, regdata_frame_versions); driver op `c05-versions` exports it as a C15 announcement event",
         "thermostat parameters without an owning device": "documented exclusion (model and implementation both raise)",
     },
     timeout={"quick": 600, "thorough": 3000},
